@@ -3,7 +3,15 @@
 Nothing outside the scenario's scratch directory is touched and no real process is ever
 started: while target() runs,
   * subprocess.run (the module attribute used by Reduino.toolchain.pio) is a recorder that
-    answers for a present/absent `pio` and for non-zero exits of the build / upload,
+    answers for a usable `pio`, for one that cannot be used (scenario key "pio": true/"ok",
+    false/"absent" -> FileNotFoundError, "noexec" -> PermissionError, "badformat" ->
+    OSError(ENOEXEC), "notdir" -> NotADirectoryError, each on every start of pio;
+    "exit" -> `pio --version` starts and exits non-zero), for non-zero exits of the build /
+    upload (faults "build", "upload") and for a pio that can no longer be started at the
+    build / upload although the probe worked (faults "buildexec", "uploadexec"),
+  * the default text encoding of the platform is a scenario parameter ("locale", default
+    utf-8): a read_text / write_text on the script or inside the project that does not
+    name an encoding gets that one, as it would on a machine with that locale,
   * tempfile.mkdtemp creates its directory inside the scratch directory (or fails),
   * pathlib.Path.read_text / write_text / mkdir are wrapped: calls on the fake __main__
     file and inside the project directory are recorded and may fail by injection, all
@@ -76,6 +84,22 @@ def expected_for(src):
         return {"status": "Other:" + type(e).__name__}
 
 
+EXEC_FAIL = {
+    "absent": lambda: FileNotFoundError(2, "No such file or directory", "pio"),
+    "noexec": lambda: PermissionError(13, "Permission denied", "pio"),
+    "badformat": lambda: OSError(8, "Exec format error", "pio"),
+    "notdir": lambda: NotADirectoryError(20, "Not a directory", "pio"),
+}
+
+
+def pio_state(v):
+    if v is True:
+        return "ok"
+    if v is False or v is None:
+        return "absent"
+    return str(v)
+
+
 def classify_argv(argv):
     try:
         a = [str(x) for x in argv]
@@ -119,6 +143,9 @@ def ini_fields(parsed):
 
 def run_scenario(sc, scripts, expected, root):
     faults = set(sc["faults"])
+    state = pio_state(sc.get("pio"))
+    xkind = sc.get("xkind") or "absent"          # how a start of pio fails at the build / upload
+    loc = sc.get("locale") or "utf-8"
     scratch = pathlib.Path(ORIG["mkdtemp"](prefix="sc-", dir=root))
     main_path = scratch / "sketch_main.py"
     src = scripts[sc["script"]]
@@ -151,9 +178,13 @@ def run_scenario(sc, scripts, expected, root):
                "cwd": dtag(cwd), "check": check, "rc": None}
         runs.append(rec)
         events.append([kind] if kind == "RunPioVersion" else ([kind, dtag(cwd)] if kind != "RunOther" else [kind, rec["argv"]]))
-        if not sc["pio"]:
-            raise FileNotFoundError(2, "No such file or directory", "pio")
-        rc = int(sc.get("rc", 1) or 1) if ((kind == "RunBuild" and "build" in faults) or (kind == "RunUpload" and "upload" in faults)) else 0
+        if state in EXEC_FAIL:
+            raise EXEC_FAIL[state]()
+        if (kind == "RunBuild" and "buildexec" in faults) or (kind == "RunUpload" and "uploadexec" in faults):
+            raise EXEC_FAIL[xkind if xkind in EXEC_FAIL else "absent"]()
+        fails = ((kind == "RunBuild" and "build" in faults) or (kind == "RunUpload" and "upload" in faults)
+                 or (kind == "RunPioVersion" and state == "exit"))
+        rc = int(sc.get("rc", 1) or 1) if fails else 0
         rec["rc"] = rc
         if rc and check:
             raise subprocess.CalledProcessError(rc, args)
@@ -178,16 +209,26 @@ def run_scenario(sc, scripts, expected, root):
     def rel(path):
         return os.path.relpath(os.path.abspath(os.fspath(path)), st["tmp"]).replace(os.sep, "/")
 
+    def with_locale(a, kw):
+        """an omitted / None encoding means the platform default: the scenario's locale"""
+        if a:
+            return ((a[0] if a[0] is not None else loc),) + tuple(a[1:]), kw
+        if kw.get("encoding") is None:
+            kw = dict(kw, encoding=loc)
+        return a, kw
+
     def w_read_text(self, *a, **kw):
         if os.path.abspath(os.fspath(self)) == main_abs:
             events.append(["ReadMain"])
             if "readmain" in faults:
                 raise PermissionError(13, "Permission denied (injected)", str(self))
+            a, kw = with_locale(a, kw)
         return ORIG["read_text"](self, *a, **kw)
 
     def w_write_text(self, data, *a, **kw):
         if under(self, st["tmp"]):
             r = rel(self)
+            a, kw = with_locale(a, kw)
             if r == "src/main.cpp":
                 tag = "other"
                 if any(data is c or data == c for c in st["cpp"]):
@@ -209,6 +250,8 @@ def run_scenario(sc, scripts, expected, root):
                             "board" if f[2] == sc["board"] else "other",
                             "libs" if f[3] in libs_known else ("omitted" if f[3] == [] else "other")]
                 events.append(["WriteIni"] + tags)
+                if isinstance(data, str):
+                    writes.setdefault("ini_arg", data[:4000])
                 if "writeini" in faults:
                     raise PermissionError(13, "Permission denied (injected)", str(self))
             else:
@@ -337,6 +380,7 @@ def run_scenario(sc, scripts, expected, root):
         "returned_sha": sha(ret_val) if isinstance(ret_val, str) else None,
         "returned_equals_expected": isinstance(ret_val, str) and exp["status"] == "ok" and ret_val == exp["cpp"],
         "main_arg_sha": writes.get("main_arg"),
+        "ini_arg": writes.get("ini_arg"),
     }
     shutil.rmtree(scratch, ignore_errors=True)
     return out
